@@ -60,15 +60,25 @@ type pipeHarness struct {
 	reloads int
 	replays int
 	revoked int
+	// bookkeeping for the class "re-registration hands a value back to an older key"
+	// (per range and value, in delivery order): the key that was told last with the value,
+	// the key it took the value from, and whether it took it by a same-value re-put
+	owner      map[string]map[string]string
+	displaced  map[string]map[string]string
+	byReput    map[string]map[string]bool
+	reputShape int // deletes of the displaced key while an exclusive subscriber listens
 }
 
 func newPipeHarness() *pipeHarness {
 	n := atomic.AddInt64(&c13CaseNo, 1)
 	h := &pipeHarness{
-		base:    fmt.Sprintf("c13svc%d", n),
-		names:   map[string]string{},
-		told:    map[string]map[string]string{},
-		applied: map[string]int64{},
+		base:      fmt.Sprintf("c13svc%d", n),
+		names:     map[string]string{},
+		told:      map[string]map[string]string{},
+		owner:     map[string]map[string]string{},
+		displaced: map[string]map[string]string{},
+		byReput:   map[string]map[string]bool{},
+		applied:   map[string]int64{},
 	}
 	// deliberately unsorted: the registry sorts endpoints to build the cluster key
 	h.etcd = VerifNewEtcd([]string{fmt.Sprintf("c13-%d-b:2379", n), fmt.Sprintf("c13-%d-a:2379", n)})
@@ -193,6 +203,7 @@ func (h *pipeHarness) deliver(r string, evs []VerifEvent) {
 			h.replays++
 		}
 		told := h.told[r]
+		h.trackOwnership(r, ev)
 		if ev.Delete {
 			delete(told, ev.Key)
 		} else {
@@ -214,6 +225,40 @@ func (h *pipeHarness) deliver(r string, evs []VerifEvent) {
 	}
 }
 
+// trackOwnership only feeds the histogram (it is no oracle): it recognises the history
+// "k1=A, k2=A, k1=A again with no delete in between, delete k2" as told to range r while
+// an exclusive subscriber listens there.  Called before ev is applied to h.told[r].
+func (h *pipeHarness) trackOwnership(r string, ev VerifEvent) {
+	if h.owner[r] == nil {
+		h.owner[r], h.displaced[r], h.byReput[r] = map[string]string{}, map[string]string{}, map[string]bool{}
+	}
+	told := h.told[r]
+	if ev.Delete {
+		v, ok := told[ev.Key]
+		if !ok {
+			return
+		}
+		k := h.owner[r][v]
+		if h.byReput[r][v] && h.displaced[r][v] == ev.Key && k != ev.Key && told[k] == v {
+			for _, s := range h.subsOn(r) {
+				if s.m.excl {
+					h.reputShape++
+					break
+				}
+			}
+		}
+		return
+	}
+	v := ev.Val
+	prev := h.owner[r][v]
+	if prev != ev.Key {
+		same := told[ev.Key] == v
+		h.byReput[r][v] = same && prev != "" && told[prev] == v
+		h.displaced[r][v] = prev
+	}
+	h.owner[r][v] = ev.Key
+}
+
 // reloaded: the watchers of the ranges rs have loaded their range anew.
 func (h *pipeHarness) reloaded(rs []string) {
 	for _, r := range rs {
@@ -229,6 +274,8 @@ func (h *pipeHarness) reloaded(rs []string) {
 		h.told[r] = snap
 		h.applied[r] = h.etcd.Rev()
 		h.reloads++
+		delete(h.owner, r) // a reload registers its keys at once: no order to track
+
 		for _, s := range h.subsOn(r) {
 			applyReloadToModel(s.m, snap)
 		}
@@ -470,11 +517,81 @@ func TestVerifC13Pipeline(t *testing.T) {
 			}
 			do(h.opPut(sym, rapid.SampledFrom(others).Draw(t, "v")))
 		}
+		// liveUnderPrefix: the registered keys of the prefix range; when preferShared is
+		// drawn true and some value is carried by two or more keys, only those keys.
+		liveUnderPrefix := func(t *rapid.T) []string {
+			data := h.etcd.InRange(VerifRangeID(h.base, false))
+			count := map[string]int{}
+			for _, v := range data {
+				count[v]++
+			}
+			var all, shared []string
+			for _, k := range sortedKeys(data) {
+				all = append(all, k)
+				if count[data[k]] > 1 {
+					shared = append(shared, k)
+				}
+			}
+			if len(shared) > 0 && rapid.IntRange(0, 3).Draw(t, "preferShared") > 0 {
+				return shared
+			}
+			return all
+		}
+		symOf := func(k string) string {
+			sym := h.sym(k)
+			if _, ok := h.names[sym]; !ok {
+				h.names[sym] = k // a publisher's key
+			}
+			return sym
+		}
+		// a registered key is registered again with the value it has (a fixed-id publisher
+		// coming back on a new lease): for an exclusive subscriber this is a registration
+		reput := func(t *rapid.T) {
+			ks := liveUnderPrefix(t)
+			if len(ks) == 0 {
+				t.Skip("nothing registered")
+			}
+			k := rapid.SampledFrom(ks).Draw(t, "k")
+			do(h.opPut(symOf(k), h.etcd.Data()[k]))
+		}
+		delLive := func(t *rapid.T) {
+			ks := liveUnderPrefix(t)
+			if len(ks) == 0 {
+				t.Skip("nothing registered")
+			}
+			do(h.opDel(symOf(rapid.SampledFrom(ks).Draw(t, "k"))))
+		}
 		sync := func(t *rapid.T) { do(h.opSync(rapid.IntRange(0, 2).Draw(t, "chunk"))) }
+		// handBack plays the whole shape in one action: two keys carry one value, the older
+		// one registers again with it, the newer one leaves (deliveries in between drawn).
+		handBack := func(t *rapid.T) {
+			i := rapid.IntRange(0, len(c13Keys)-1).Draw(t, "older")
+			j := rapid.IntRange(0, len(c13Keys)-2).Draw(t, "newer")
+			if j >= i {
+				j++
+			}
+			older, newer := "B/"+c13Keys[i], "B/"+c13Keys[j]
+			v := rapid.SampledFrom(c13Vals).Draw(t, "v")
+			do(h.opPut(older, v))
+			do(h.opPut(newer, v))
+			if rapid.Bool().Draw(t, "syncAfterBoth") {
+				do(h.opSync(rapid.IntRange(0, 2).Draw(t, "chunk")))
+			}
+			do(h.opPut(older, v))
+			if rapid.Bool().Draw(t, "syncAfterReput") {
+				do(h.opSync(rapid.IntRange(0, 2).Draw(t, "chunk")))
+			}
+			do(h.opDel(newer))
+			do(h.opSync(rapid.IntRange(0, 2).Draw(t, "chunk")))
+		}
 		t.Repeat(map[string]func(*rapid.T){
-			"put":     put,
-			"update":  update,
-			"update2": update,
+			"put":      put,
+			"update":   update,
+			"update2":  update,
+			"reput":    reput,
+			"reput2":   reput,
+			"delLive":  delLive,
+			"handBack": handBack,
 			"del": func(t *rapid.T) {
 				do(h.opDel(rapid.SampledFrom(h.syms).Draw(t, "k")))
 			},
@@ -550,6 +667,9 @@ func TestVerifC13Pipeline(t *testing.T) {
 		if h.nsub > 1 {
 			st.Class("several-subscribers")
 		}
+		if h.reputShape > 0 {
+			st.Class("excl-reput-older-key-then-delete-newer")
+		}
 		if h.inPlace > 0 {
 			st.Class("with-value-change")
 			st.NonTrivial(h.log.String())
@@ -622,6 +742,53 @@ func TestVerifC13RegressD4PipelineReconnectChangesValue(t *testing.T) {
 		func(h *pipeHarness) (string, error) { return h.opSubscribe(false, true, 0) },
 		func(h *pipeHarness) (string, error) { return h.opPut("B/k0", "v1") },
 		func(h *pipeHarness) (string, error) { return h.opReconnect() },
+	)
+}
+
+// Exclusive subscriber, two keys carry one value, the older key registers again with the
+// same value (no delete in between), then the newer key goes away: the value must stay,
+// its most recently registered key is still registered ("re-registration counts as
+// registering").  Shared subscriber as control.  (Seed C13c: a registry that drops
+// "redundant" PUT events.)
+func TestVerifC13RegressExclusiveReRegistrationCounts(t *testing.T) {
+	for _, excl := range []bool{true, false} {
+		excl := excl
+		runPipelineScript(t,
+			func(h *pipeHarness) (string, error) { return h.opSubscribe(false, excl, 1) },
+			func(h *pipeHarness) (string, error) { return h.opPut("B/k0", "v0") },
+			func(h *pipeHarness) (string, error) { return h.opPut("B/k1", "v0") },
+			func(h *pipeHarness) (string, error) { return h.opSync(1) },
+			func(h *pipeHarness) (string, error) { return h.opPut("B/k0", "v0") },
+			func(h *pipeHarness) (string, error) { return h.opSync(1) },
+			func(h *pipeHarness) (string, error) { return h.opDel("B/k1") },
+			func(h *pipeHarness) (string, error) { return h.opSync(1) },
+			func(h *pipeHarness) (string, error) {
+				if got := h.subs[0].values(); len(got) != 1 || got[0] != "v0" {
+					return fmt.Sprintf("Values()=%v, want [v0]: B/k0 is registered with v0 and is its most recent registrant", got), nil
+				}
+				return "", nil
+			},
+		)
+	}
+}
+
+// The same through a fixed-id Publisher coming back (KeepAlive again under the same id).
+func TestVerifC13RegressExclusiveRepublishSameValue(t *testing.T) {
+	runPipelineScript(t,
+		func(h *pipeHarness) (string, error) { return h.opSubscribe(false, true, 1) },
+		func(h *pipeHarness) (string, error) { return h.opPublish(1, "v0") },
+		func(h *pipeHarness) (string, error) { return h.opPublish(2, "v0") },
+		func(h *pipeHarness) (string, error) { return h.opSync(0) },
+		func(h *pipeHarness) (string, error) { return h.opPublish(1, "v0") },
+		func(h *pipeHarness) (string, error) { return h.opSync(0) },
+		func(h *pipeHarness) (string, error) { return h.opUnpublish(1) }, // the id-2 publisher leaves
+		func(h *pipeHarness) (string, error) { return h.opSync(0) },
+		func(h *pipeHarness) (string, error) {
+			if got := h.subs[0].values(); len(got) != 1 || got[0] != "v0" {
+				return fmt.Sprintf("Values()=%v, want [v0]", got), nil
+			}
+			return "", nil
+		},
 	)
 }
 
